@@ -444,7 +444,7 @@ func (f *Frame) returnAsserts(st *State, ret *ssa.Return, vals []*Val) {
 	if len(cls) == 0 {
 		return
 	}
-	sc := &Scope{c: c, fr: f, st: st, old: f.entry, vars: map[string]*Val{}, at: ret.Block(), anyLoop: true, pkg: f.fn.Pkg}
+	sc := &Scope{c: c, fr: f, st: st, old: f.entry, vars: map[string]*Val{}, at: ret.Block(), atInstr: ret, anyLoop: true, pkg: f.fn.Pkg}
 	if len(vals) == 1 {
 		bindResults(sc, f.fn, vals[0])
 	} else if len(vals) > 1 {
